@@ -3,7 +3,8 @@
 T=$1; V=$2; shift 2
 SD=/tmp/seedwork/$T/SEED_OUT
 . /verif/bin/env.sh
-cd /tmp/scratch && git checkout -q -- . && git clean -fdq && git checkout -q --detach $(git -C /repo rev-parse HEAD)
+W=${W:-/tmp/scratch}; VT=${VT:-/tmp/vtest}; BIN=${BIN:-/verif/.build/bngvet}
+cd $W && git checkout -q -- . && git clean -fdq && git checkout -q --detach $(git -C /repo rev-parse HEAD)
 rm -rf SEED_OUT; cp -r $SD SEED_OUT; rm -f SEED_OUT/go.mod
 RUN=$(head -1 SEED_OUT/${V}_demo/RUN.txt)
 echo "=== $T $V: $(grep -h '^+++ b/' $SD/$V.patch | sed 's|+++ b/||' | tr '\n' ' ')"
@@ -13,5 +14,5 @@ git apply $SD/$V.patch
 timeout 600 bash -c "$RUN" > /tmp/sr_with.txt 2>&1; r1=$?; grep -qE '^(--- FAIL|FAIL|panic:)' /tmp/sr_with.txt && r1=1
 echo "RESULT without=$r0 (want 0) with=$r1 (want !=0)   [$(tail -1 /tmp/sr_with.txt | cut -c1-120)]"
 git clean -fdq; rm -rf SEED_OUT
-for p in "$@"; do /verif/.build/bngvet -prop $p -repo /tmp/scratch -verif /tmp/vtest 2>&1 | grep -E "^  key|quick:" | cut -c1-230 | (head -4; tail -1); done
+for p in "$@"; do $BIN -prop $p -repo $W -verif $VT 2>&1 | grep -E "^  key|quick:" | cut -c1-230 | (head -4; tail -1); done
 git checkout -q -- . ; git clean -fdq
